@@ -3,6 +3,7 @@
 -/
 import AnyVecModel.Proofs.Exec
 import AnyVecModel.Proofs.KernelRawParts
+import AnyVecModel.Props.RefineMulti
 namespace AnyVec
 namespace C17
 open World
@@ -75,6 +76,19 @@ theorem raw_parts_tables_are_the_source :
     Gen.Kernel.anyvec_into_raw_parts_fields.length = 12 ∧ Gen.Kernel.raw_parts_clone_fields.length = 8 ∧
     Gen.Kernel.heap_build_fields = [("mem", "dangling(&element_layout)"), ("size", "0"), ("element_layout", "element_layout")] :=
   ⟨by rw [KernelTie.raw_parts_tie.1]; rfl, by rw [KernelTie.raw_parts_tie.2.2.1]; rfl, KernelTie.raw_parts_tie.2.2.2.2.1⟩
+
+/-! ### against the abstract state of all vectors (Props/RefineMulti.lean) -/
+
+/-- **decomposing into raw parts and rebuilding is invisible to the abstract machine**: in any world that shows an
+abstract state of all its vectors, `from_raw_parts(into_raw_parts(v))` on a live vector of a raw-parts backend leaves a
+world that shows the *same* abstract state - same items, same capacity, same everything - so any life-cycle script may be
+interleaved with such round trips without changing what it refines to. -/
+theorem round_trip_keeps_the_abstract_state (cfg : Cfg) (w : World) (ms : RefineMulti.MSpec) (h : RefineMulti.MRel w ms)
+    (v : Nat) (d : VecSt) (hv : w.vecs[v]? = some d) (hl : d.live = true)
+    (hbk : d.bk = .heap ∨ d.bk = .empty ∨ d.bk = .reloc) :
+    RefineMulti.MRel (World.step cfg (.rawrt v) w).1 ms ∧ (World.step cfg (.rawrt v) w).2 = .ok [] := by
+  rw [rawrt_is_noop cfg w v d hv hl hbk]
+  exact ⟨h, rfl⟩
 
 end C17
 end AnyVec
